@@ -425,9 +425,13 @@ class Library(object):
     # str methods (first arg is the receiver)
     # ------------------------------------------------------------------
     def str_startswith(self, s, prefix):
+        if isinstance(prefix, tuple):
+            return mk(z3.Or(*[z3.PrefixOf(z3str(p), z3str(s)) for p in prefix]))
         return mk(z3.PrefixOf(z3str(prefix), z3str(s)))
 
     def str_endswith(self, s, suffix):
+        if isinstance(suffix, tuple):
+            return mk(z3.Or(*[z3.SuffixOf(z3str(p), z3str(s)) for p in suffix]))
         return mk(z3.SuffixOf(z3str(suffix), z3str(s)))
 
     def str_lower(self, s):
@@ -455,12 +459,85 @@ class Library(object):
             return s.rstrip(chars)
         if chars == '/':
             return mk(spec.rstrip_slashes(self.I.ctx, z3str(s)))
-        raise OutsideSubset('str.rstrip(%r) symbolic' % (chars,))
+        return self._strip_model(s, chars, False, True)
+
+    _WS = ' \t\n\r\x0b\x0c'
+
+    def _strip_model(self, s, chars, left, right):
+        if isinstance(s, str) and (chars is None or isinstance(chars, str)):
+            if left and right:
+                return s.strip(chars)
+            return s.lstrip(chars) if left else s.rstrip(chars)
+        if chars is not None and not isinstance(chars, str):
+            raise OutsideSubset('strip with symbolic chars')
+        cs = self._WS if chars is None else chars
+        if not cs:
+            return s
+        ctx = self.I.ctx
+        t = z3str(s)
+        cls = z3.Union(*[z3.Re(c) for c in cs]) if len(cs) > 1 else z3.Re(cs)
+        run = z3.Star(cls)
+        lead = ctx.fresh_str('lead') if left else None
+        trail = ctx.fresh_str('trail') if right else None
+        mid = ctx.fresh_str('stripped')
+        parts = ([lead] if left else []) + [mid] + ([trail] if right else [])
+        ctx.assume(t == (z3.Concat(*parts) if len(parts) > 1 else parts[0]))
+        first = z3.SubString(mid, 0, 1)
+        last = z3.SubString(mid, z3.Length(mid) - 1, 1)
+        if left:
+            ctx.assume(z3.InRe(lead, run))
+            ctx.assume(z3.Or(mid == z3.StringVal(''), z3.Not(z3.InRe(first, cls))))
+        if right:
+            ctx.assume(z3.InRe(trail, run))
+            ctx.assume(z3.Or(mid == z3.StringVal(''), z3.Not(z3.InRe(last, cls))))
+        ctx.used_axioms.add('str.strip/lstrip/rstrip: the middle part after '
+                            'removing the maximal runs of the given characters')
+        return Sym(mid, 'str')
 
     def str_strip(self, s, chars=None):
+        return self._strip_model(s, chars, True, True)
+
+    def str_lstrip(self, s, chars=None):
+        return self._strip_model(s, chars, True, False)
+
+    def str_partition(self, s, sep):
+        if isinstance(s, str) and isinstance(sep, str):
+            return s.partition(sep)
+        if not isinstance(sep, str) or not sep:
+            raise OutsideSubset('partition with symbolic separator')
+        ctx = self.I.ctx
+        t = z3str(s)
+        sv = z3.StringVal(sep)
+        if ctx.branch(z3.Contains(t, sv), 'partition-found'):
+            a = ctx.fresh_str('before')
+            b = ctx.fresh_str('after')
+            ctx.assume(t == z3.Concat(a, sv, b))
+            ctx.assume(z3.Not(z3.Contains(z3.Concat(a, z3.StringVal(sep[:-1])), sv))
+                       if len(sep) > 1 else z3.Not(z3.Contains(a, sv)))
+            return (mk(a), sep, mk(b))
+        return (s, '', '')
+
+    def str_rpartition(self, s, sep):
+        if isinstance(s, str) and isinstance(sep, str):
+            return s.rpartition(sep)
+        if not isinstance(sep, str) or not sep:
+            raise OutsideSubset('rpartition with symbolic separator')
+        ctx = self.I.ctx
+        t = z3str(s)
+        sv = z3.StringVal(sep)
+        if ctx.branch(z3.Contains(t, sv), 'rpartition-found'):
+            a = ctx.fresh_str('before')
+            b = ctx.fresh_str('after')
+            ctx.assume(t == z3.Concat(a, sv, b))
+            ctx.assume(z3.Not(z3.Contains(z3.Concat(z3.StringVal(sep[1:]), b), sv))
+                       if len(sep) > 1 else z3.Not(z3.Contains(b, sv)))
+            return (mk(a), sep, mk(b))
+        return ('', '', s)
+
+    def str_isdigit(self, s):
         if isinstance(s, str):
-            return s.strip(chars)
-        raise OutsideSubset('str.strip symbolic')
+            return s.isdigit()
+        return mk(z3.InRe(z3str(s), z3.Plus(z3.Range('0', '9'))))
 
     def str_replace(self, s, a, b):
         if isinstance(s, str) and isinstance(a, str) and isinstance(b, str):
